@@ -93,6 +93,9 @@ func (ts *TimestampTZ) MarshalJSON() ([]byte, error) {
 //   - 2006-01-02T15:04:05.999999999Z07:00
 //   - 2006-01-02T15:04:05.999999999Z07
 func (ts *TimestampTZ) UnmarshalJSON(data []byte) error {
+	if len(data) < len(`""`) {
+		return fmt.Errorf("%w: Cannot parse %s as %q", ErrSQLType, data, timestampTZHourFormat)
+	}
 	str := data[1 : len(data)-1] // Unquote
 
 	// Figure out which TZ format we need.
